@@ -32,16 +32,16 @@ func (c *CallCtx) Pos() string {
 func (x *Exec) prepareCall(fr *Frame, c *ssa.CallCommon) (Value, []Value) {
 	var args []Value
 	if c.IsInvoke() {
-		recv := x.get(fr, c.Value)
+		recv := x.concErr(x.get(fr, c.Value))
 		args = append(args, recv)
 		for _, a := range c.Args {
-			args = append(args, x.get(fr, a))
+			args = append(args, x.concErr(x.get(fr, a)))
 		}
 		return nil, args
 	}
 	fn := x.get(fr, c.Value)
 	for _, a := range c.Args {
-		args = append(args, x.get(fr, a))
+		args = append(args, x.concErr(x.get(fr, a)))
 	}
 	return fn, args
 }
@@ -87,7 +87,7 @@ func (x *Exec) callStatic(fn *ssa.Function, args []Value, bind []Value, c *ssa.C
 		x.Summ[name]++
 		return in(x, &CallCtx{Fn: fn, Args: args, Common: c, Instr: x.curInstr, Caller: x.curCaller})
 	}
-	if x.P.MergeFns[name] && !x.Cfg.NoMerge {
+	if (x.P.MergeFns[name] || x.localMerge[name]) && !x.Cfg.NoMerge {
 		x.Summ["merged:"+name]++
 		return x.mergeCall(fn, args, bind)
 	}
